@@ -40,6 +40,15 @@ func newConfig(options []Option) *config {
 	return c
 }
 
+// newConfigWithoutEncode is for the operations that have no encoded output (mkdir, verify, walk).
+// An encoding option must not replace the grower there: it forms the branches and paths these
+// operations work on and validates the node names.
+func newConfigWithoutEncode(options []Option) *config {
+	c := newConfig(options)
+	c.encode = encodeDefault
+	return c
+}
+
 // Option is functional options pattern
 type Option func(*config)
 
